@@ -89,6 +89,29 @@ func main() {
 	stgutg.ManageError("Error in connection to AMF", err)
 	stgutg.ManageNGSetup(conn, string(gnb), c.IMSI, c.MNC, uint64(c.GnbBitLength), c.GnbName)
 
+	if mode == "multi" {
+		// several subscribers (explicit SUPIs, possibly roamers from another PLMN) register one after
+		// the other over one association; some deregister again
+		dereg, _ := s.Rig["dereg"].([]interface{})
+		var ues []*tglib.RanUeContext
+		for i, sub := range s.Subscribers {
+			u := tglib.NewRanUeContext("imsi-"+sub, int64(num(s.Rig, "ran_id", 1)+i), nea, nia)
+			u.AuthenticationSubs = tglib.GetAuthSubscription(c.K, c.OPC, c.OP)
+			u, _, _ = stgutg.RegisterUE(u, c.MNC, c.MCC, conn)
+			ues = append(ues, u)
+			w.Log(world.Event{Ev: "ctx", I: i, UE: i, Info: map[string]interface{}{"supi": u.Supi, "ran_ue_ngap_id": u.RanUeNgapId, "amf_ue_ngap_id": u.AmfUeNgapId}})
+		}
+		for _, d := range dereg {
+			if i := int(d.(float64)); i >= 0 && i < len(ues) {
+				stgutg.DeregisterUE(ues[i], c.MNC, conn)
+			}
+		}
+		w.Summary(true)
+		fmt.Println(">> rig finished")
+		conn.Close()
+		os.Exit(0)
+	}
+
 	ue := tglib.NewRanUeContext(supi, int64(num(s.Rig, "ran_id", 1)), nea, nia)
 	ue.AuthenticationSubs = tglib.GetAuthSubscription(c.K, c.OPC, c.OP)
 	ue, _, _ = stgutg.RegisterUE(ue, c.MNC, c.MCC, conn)
